@@ -4,9 +4,28 @@
    (computed by the harness with BigInt arithmetic) against the oracle `gcd gcd`. -/
 import NB.Wire
 import NB.Model.Gcd
+import NB.Model.GcdD
+import NB.Model.AsmParams
 namespace NB.Drv.C13
-open NB NB.Wire NB.Gcd NB.IntVal
+open NB NB.Wire NB.IntVal
 
+/-- the extracted parameters the digit-level operators run with -/
+def P := NB.Gen.P
+
+/-- operands as the harness builds them: `BigUint::new` / `BigInt::from_biguint` normalise (strip high
+    zero limbs, zero gets `NoSign`), so the digit-level model is always run on the canonical vector the
+    real code sees (identity on canonical request tokens; the shrinker of tools/check.py can emit a
+    token like `0`).  A limb that is not a 64-bit digit is rejected (the harness cannot parse it either). -/
+def pU (s : String) : Option (List Nat) := do
+  let l ← parseLimbs s
+  if l.all (fun d => decide (d < B)) then pure (normalize l) else none
+def pI (s : String) : Option BigInt := do
+  let x ← parseBigInt s
+  if x.mag.all (fun d => decide (d < B)) then pure (BigInt.fromBiguint x.sign (normalize x.mag)) else none
+
+/- MODEL column: the digit-level definitions of NB.Model.GcdD (namespace `NB.GcdD`), applied to the
+   limbs exactly as received; results are digit vectors / BigInt records and are printed verbatim.
+   ORACLE column: `Nat.gcd`, `Nat.lcm`, `Int.gcd`, `Int.fmod`, … on the values. -/
 def lu (n : Nat) : String := showLimbs (ofNat n)
 def li (i : Int) : String := showBigInt (BigInt.ofInt i)
 def su := showExcept lu
@@ -14,6 +33,11 @@ def si := showExcept li
 def sb := showExcept (fun b : Bool => showBool b)
 def suu := showExcept (fun (p : Nat × Nat) => lu p.1 ++ " " ++ lu p.2)
 def sii := showExcept (fun (p : Int × Int) => li p.1 ++ " " ++ li p.2)
+/-- digit-level results -/
+def du := showExcept showLimbs
+def di := showExcept showBigInt
+def duu := showExcept (fun (p : List Nat × List Nat) => showLimbs p.1 ++ " " ++ showLimbs p.2)
+def dii := showExcept (fun (p : BigInt × BigInt) => showBigInt p.1 ++ " " ++ showBigInt p.2)
 
 def oNextU (a b : Nat) : Except Panic Nat := if b = 0 then .error .divzero else .ok ((a + b - 1) / b * b)
 def oPrevU (a b : Nat) : Except Panic Nat := if b = 0 then .error .divzero else .ok (a / b * b)
@@ -24,86 +48,90 @@ def oDecU (a : Nat) : Except Panic Nat := if a = 0 then .error .underflow else .
 def handle (op : String) (args : List String) : Option (String × String) :=
   match op, args with
   | "u.gcd", [a, b] => do
-    let a ← parseLimbs a; let b ← parseLimbs b
-    pure (su (gcd (val a) (val b)), su (.ok (Nat.gcd (val a) (val b))))
+    let a ← pU a; let b ← pU b
+    pure (du (GcdD.gcd P a b), su (.ok (Nat.gcd (val a) (val b))))
   | "u.lcm", [a, b] => do
-    let a ← parseLimbs a; let b ← parseLimbs b
-    pure (su (lcm (val a) (val b)), su (.ok (Nat.lcm (val a) (val b))))
+    let a ← pU a; let b ← pU b
+    pure (du (GcdD.lcm P a b), su (.ok (Nat.lcm (val a) (val b))))
   | "u.gcd_lcm", [a, b] => do
-    let a ← parseLimbs a; let b ← parseLimbs b
-    pure (suu (gcdLcm (val a) (val b)), suu (.ok (Nat.gcd (val a) (val b), Nat.lcm (val a) (val b))))
+    let a ← pU a; let b ← pU b
+    pure (duu (GcdD.gcdLcm P a b), suu (.ok (Nat.gcd (val a) (val b), Nat.lcm (val a) (val b))))
   | "u.is_multiple_of", [a, b] => do
-    let a ← parseLimbs a; let b ← parseLimbs b
-    pure (sb (isMultipleOf (val a) (val b)), sb (.ok (decide (val a % val b = 0))))
+    let a ← pU a; let b ← pU b
+    pure (sb (GcdD.isMultipleOf P a b), sb (.ok (decide (val a % val b = 0))))
   | "u.next_multiple_of", [a, b] => do
-    let a ← parseLimbs a; let b ← parseLimbs b
-    pure (su (nextMultipleOf (val a) (val b)), su (oNextU (val a) (val b)))
+    let a ← pU a; let b ← pU b
+    pure (du (GcdD.nextMultipleOf P a b), su (oNextU (val a) (val b)))
   | "u.prev_multiple_of", [a, b] => do
-    let a ← parseLimbs a; let b ← parseLimbs b
-    pure (su (prevMultipleOf (val a) (val b)), su (oPrevU (val a) (val b)))
+    let a ← pU a; let b ← pU b
+    pure (du (GcdD.prevMultipleOf P a b), su (oPrevU (val a) (val b)))
   | "u.is_even", [a] => do
-    let a ← parseLimbs a
-    pure (sb (.ok (isEven a)), sb (.ok (decide (val a % 2 = 0))))
+    let a ← pU a
+    pure (sb (.ok (Gcd.isEven a)), sb (.ok (decide (val a % 2 = 0))))
   | "u.is_odd", [a] => do
-    let a ← parseLimbs a
-    pure (sb (.ok (isOdd a)), sb (.ok (decide (val a % 2 = 1))))
+    let a ← pU a
+    pure (sb (.ok (Gcd.isOdd a)), sb (.ok (decide (val a % 2 = 1))))
   | "u.inc", [a] => do
-    let a ← parseLimbs a
-    pure (su (inc (val a)), su (.ok (val a + 1)))
+    let a ← pU a
+    pure (du (GcdD.inc P a), su (.ok (val a + 1)))
   | "u.dec", [a] => do
-    let a ← parseLimbs a
-    pure (su (dec (val a)), su (oDecU (val a)))
+    let a ← pU a
+    pure (du (GcdD.dec P a), su (oDecU (val a)))
   | "i.gcd", [a, b] => do
-    let a ← parseBigInt a; let b ← parseBigInt b
-    pure (si (bigintGcd a.val b.val), si (.ok (Int.gcd a.val b.val : Nat)))
+    let a ← pI a; let b ← pI b
+    pure (di (GcdD.bigintGcd P a b), si (.ok (Int.gcd a.val b.val : Nat)))
   | "i.lcm", [a, b] => do
-    let a ← parseBigInt a; let b ← parseBigInt b
-    pure (si (bigintLcm a.val b.val), si (.ok (Int.lcm a.val b.val : Nat)))
+    let a ← pI a; let b ← pI b
+    pure (di (GcdD.bigintLcm P a b), si (.ok (Int.lcm a.val b.val : Nat)))
   | "i.gcd_lcm", [a, b] => do
-    let a ← parseBigInt a; let b ← parseBigInt b
-    pure (sii (bigintGcdLcm a.val b.val), sii (.ok ((Int.gcd a.val b.val : Nat), (Int.lcm a.val b.val : Nat))))
+    let a ← pI a; let b ← pI b
+    pure (dii (GcdD.bigintGcdLcm P a b), sii (.ok ((Int.gcd a.val b.val : Nat), (Int.lcm a.val b.val : Nat))))
   | "i.extended_gcd", [a, b] => do
-    let a ← parseBigInt a; let b ← parseBigInt b
-    let m := showExcept (fun (r : Int × Int × Int) => li r.1 ++ " " ++ li r.2.1 ++ " " ++ li r.2.2) (extendedGcd a.val b.val)
+    let a ← pI a; let b ← pI b
+    let m := showExcept (fun (r : BigInt × BigInt × BigInt) =>
+      showBigInt r.1 ++ " " ++ showBigInt r.2.1 ++ " " ++ showBigInt r.2.2) (GcdD.extendedGcd P a b)
     pure (m, "-")
   | "i.extended_gcd.id", [a, b] => do
-    let a ← parseBigInt a; let b ← parseBigInt b
-    let m := showExcept (fun (r : Int × Int × Int) => li r.1 ++ " " ++ li (a.val * r.2.1 + b.val * r.2.2)) (extendedGcd a.val b.val)
+    let a ← pI a; let b ← pI b
+    let m := showExcept (fun (r : BigInt × BigInt × BigInt) =>
+      showBigInt r.1 ++ " " ++ li (a.val * r.2.1.val + b.val * r.2.2.val)) (GcdD.extendedGcd P a b)
     let g : Int := (Int.gcd a.val b.val : Nat)
     pure (m, "ok " ++ li g ++ " " ++ li g)
   | "i.extended_gcd_lcm", [a, b] => do
-    let a ← parseBigInt a; let b ← parseBigInt b
-    let m := showExcept (fun (r : (Int × Int × Int) × Int) =>
-      li r.1.1 ++ " " ++ li r.1.2.1 ++ " " ++ li r.1.2.2 ++ " " ++ li r.2) (extendedGcdLcm a.val b.val)
+    let a ← pI a; let b ← pI b
+    let m := showExcept (fun (r : (BigInt × BigInt × BigInt) × BigInt) =>
+      showBigInt r.1.1 ++ " " ++ showBigInt r.1.2.1 ++ " " ++ showBigInt r.1.2.2 ++ " " ++ showBigInt r.2)
+      (GcdD.extendedGcdLcm P a b)
     pure (m, "-")
   | "i.extended_gcd_lcm.id", [a, b] => do
-    let a ← parseBigInt a; let b ← parseBigInt b
-    let m := showExcept (fun (r : (Int × Int × Int) × Int) =>
-      li r.1.1 ++ " " ++ li (a.val * r.1.2.1 + b.val * r.1.2.2) ++ " " ++ li r.2) (extendedGcdLcm a.val b.val)
+    let a ← pI a; let b ← pI b
+    let m := showExcept (fun (r : (BigInt × BigInt × BigInt) × BigInt) =>
+      showBigInt r.1.1 ++ " " ++ li (a.val * r.1.2.1.val + b.val * r.1.2.2.val) ++ " " ++ showBigInt r.2)
+      (GcdD.extendedGcdLcm P a b)
     let g : Int := (Int.gcd a.val b.val : Nat)
     let l : Int := (Int.lcm a.val b.val : Nat)
     pure (m, "ok " ++ li g ++ " " ++ li g ++ " " ++ li l)
   | "i.is_multiple_of", [a, b] => do
-    let a ← parseBigInt a; let b ← parseBigInt b
-    pure (sb (bigintIsMultipleOf a.val b.val), sb (.ok (decide (a.val % b.val = 0))))
+    let a ← pI a; let b ← pI b
+    pure (sb (GcdD.bigintIsMultipleOf P a b), sb (.ok (decide (a.val % b.val = 0))))
   | "i.next_multiple_of", [a, b] => do
-    let a ← parseBigInt a; let b ← parseBigInt b
-    pure (si (bigintNextMultipleOf a.val b.val), si (oNextI a.val b.val))
+    let a ← pI a; let b ← pI b
+    pure (di (GcdD.bigintNextMultipleOf P a b), si (oNextI a.val b.val))
   | "i.prev_multiple_of", [a, b] => do
-    let a ← parseBigInt a; let b ← parseBigInt b
-    pure (si (bigintPrevMultipleOf a.val b.val), si (oPrevI a.val b.val))
+    let a ← pI a; let b ← pI b
+    pure (di (GcdD.bigintPrevMultipleOf P a b), si (oPrevI a.val b.val))
   | "i.is_even", [a] => do
-    let a ← parseBigInt a
-    pure (sb (.ok (isEven a.mag)), sb (.ok (decide (a.val % 2 = 0))))
+    let a ← pI a
+    pure (sb (.ok (Gcd.isEven a.mag)), sb (.ok (decide (a.val % 2 = 0))))
   | "i.is_odd", [a] => do
-    let a ← parseBigInt a
-    pure (sb (.ok (isOdd a.mag)), sb (.ok (decide (a.val % 2 = 1))))
+    let a ← pI a
+    pure (sb (.ok (Gcd.isOdd a.mag)), sb (.ok (decide (a.val % 2 = 1))))
   | "i.inc", [a] => do
-    let a ← parseBigInt a
-    pure (si (bigintInc a.val), si (.ok (a.val + 1)))
+    let a ← pI a
+    pure (di (GcdD.bigintInc P a), si (.ok (a.val + 1)))
   | "i.dec", [a] => do
-    let a ← parseBigInt a
-    pure (si (bigintDec a.val), si (.ok (a.val - 1)))
+    let a ← pI a
+    pure (di (GcdD.bigintDec P a), si (.ok (a.val - 1)))
   | _, _ => none
 
 end NB.Drv.C13
